@@ -133,36 +133,14 @@ func c05Func(c *Ctx, a *absVariant, fn string) {
 	report("C05-d", "T."+fn+":success-keeps-effects", badD, "no stale snapshot reinstated on success")
 	report("C05-e", "T."+fn+":clone-linear", badE, "each token restored at most once per path")
 	if fn == "parseRuleRecursiveLeader" {
-		var bad []string
-		for _, e := range res.Exits {
-			if isMemoExit(e) {
-				continue
-			}
-			var lr *absint.Val
-			for o, v := range e.State.Env {
-				if o.Name() == "lastResult" && v.K == "tuple" {
-					vv := v
-					lr = &vv
-				}
-			}
-			if lr == nil {
-				bad = append(bad, a.where(e, res.Fn)+": no tracked lastResult tuple at return")
-				continue
-			}
-			s := e.State
-			if s.Pt != lr.F["end"].A || s.St != lr.F["$st"].A || s.Er != lr.F["$er"].A {
-				bad = append(bad, fmt.Sprintf("%s: returns with pt=%s st=%s errs=%s but the returned result was recorded at pt=%s st=%s errs=%s [%s]", a.where(e, res.Fn), s.Pt, s.St, s.Er, lr.F["end"].A, lr.F["$st"].A, lr.F["$er"].A, evString(e)))
-			}
-			if e.Value().String() != lr.F["v"].String() || e.Ok().String() != lr.F["b"].String() {
-				bad = append(bad, a.where(e, res.Fn)+": returned value/flag are not those of lastResult")
-			}
-		}
-		report("C05-g", "T.parseRuleRecursiveLeader:final-attempt-discarded", bad, fmt.Sprintf("%d exits: position, store and error list equal those recorded with the returned result", len(res.Exits)))
+		leaderFinalAttempt(c, a, "C05-g")
 	}
 }
 
 // c05Shapes checks restoreState and Discard bodies.
-func c05Shapes(c *Ctx, a *absVariant) {
+func c05Shapes(c *Ctx, a *absVariant) { c05ShapesRule(c, a, "C05-e") }
+
+func c05ShapesRule(c *Ctx, a *absVariant, ruleID string) {
 	r := c.R
 	vn := a.V.Name
 	rs := a.V.Func("parser", "restoreState")
@@ -190,7 +168,7 @@ func c05Shapes(c *Ctx, a *absVariant) {
 		}
 		return true
 	})
-	r.Check(strings.Join(seq, ",") == "discard,install", "C05-e", "T.restoreState:discard-then-install", vn, a.V.Where(rs.Pos()), "old dict discarded, then the clone installed", "body performs ["+strings.Join(seq, ",")+"]")
+	r.Check(strings.Join(seq, ",") == "discard,install", ruleID, "T.restoreState:discard-then-install", vn, a.V.Where(rs.Pos()), "old dict discarded, then the clone installed", "body performs ["+strings.Join(seq, ",")+"]")
 	dd := a.V.Func("storeDict", "Discard")
 	if dd == nil {
 		r.Fatal("variant %s: storeDict.Discard not found", vn)
@@ -218,7 +196,7 @@ func c05Shapes(c *Ctx, a *absVariant) {
 		}
 		return true
 	})
-	r.Check(strings.Join(seq, ",") == "clear,put:"+recv, "C05-e", "T.storeDict.Discard:clear-then-pool", vn, a.V.Where(dd.Pos()), "all keys deleted before the dict is pooled", "body performs ["+strings.Join(seq, ",")+"]")
+	r.Check(strings.Join(seq, ",") == "clear,put:"+recv, ruleID, "T.storeDict.Discard:clear-then-pool", vn, a.V.Where(dd.Pos()), "all keys deleted before the dict is pooled", "body performs ["+strings.Join(seq, ",")+"]")
 	// Put only in Discard
 	nPut := 0
 	for _, fd := range a.V.Funcs() {
@@ -229,7 +207,7 @@ func c05Shapes(c *Ctx, a *absVariant) {
 			return true
 		})
 	}
-	r.Check(nPut == 0, "C05-e", "T.statePool.Put:only-in-Discard", vn, a.V.Where(dd.Pos()), "no other Put", fmt.Sprintf("%d Put calls outside Discard", nPut))
+	r.Check(nPut == 0, ruleID, "T.statePool.Put:only-in-Discard", vn, a.V.Where(dd.Pos()), "no other Put", fmt.Sprintf("%d Put calls outside Discard", nPut))
 	// cloneState: copies every key of p.cur.state, using Clone() when the value implements Cloner
 	cs := a.V.Func("parser", "cloneState")
 	if cs == nil {
@@ -258,7 +236,7 @@ func c05Shapes(c *Ctx, a *absVariant) {
 		})
 		return false
 	})
-	r.Check(okRange && okCloner && okPlain, "C05-e", "T.cloneState:deep-copy", vn, a.V.Where(cs.Pos()), "every key copied, Cloner values through Clone()", fmt.Sprintf("range=%t cloner=%t plain=%t", okRange, okCloner, okPlain))
+	r.Check(okRange && okCloner && okPlain, ruleID, "T.cloneState:deep-copy", vn, a.V.Where(cs.Pos()), "every key copied, Cloner values through Clone()", fmt.Sprintf("range=%t cloner=%t plain=%t", okRange, okCloner, okPlain))
 }
 
 // c05Global: ownership of globalStore in every variant.
